@@ -104,7 +104,12 @@ class Assembly:
                         text = text.replace(old, new)
                         self.rewrites.append(('R4-sub %r=>%r' % (old, new), a[kind], cnt))
                 self.emit('// ---- copied (R2) from %s:%d-%d sha256=%s' % (rec['file'], rec['line_start'], rec['line_end'], rec['sha256'][:16]))
+                if 'attr' in a:
+                    self.emit(a['attr'])
                 self.emit(text)
+                if 'derive' in a:
+                    self.emit(_derive_impls(text, kind, a[kind], a['derive'].split(',')))
+                    self.rewrites.append(('R2 A-DERIVE structural impls: ' + a['derive'], a[kind], 1))
                 self.types.append({k: rec[k] for k in ('file', 'name', 'kind', 'line_start', 'line_end', 'sha256')})
                 i += 1
             elif s.startswith('//@fn '):
@@ -234,6 +239,62 @@ class Assembly:
                     raise Undecided('template error: duplicate label %s' % lab)
                 res[lab] = no
         return res
+
+
+def _generics(text, kind, name):
+    """(decl, use) generic parameter lists of a copied type, defaults and bounds removed from `use`"""
+    from .rustlex import lex
+    toks = [t for t in lex(text) if t.kind not in ('ws', 'lcomment', 'bcomment')]
+    for k in range(len(toks) - 1):
+        if toks[k].text == kind and toks[k + 1].text == name:
+            if k + 2 < len(toks) and toks[k + 2].text == '<':
+                depth, j, params, cur = 0, k + 2, [], []
+                while True:
+                    t = toks[j]
+                    if t.text == '<':
+                        depth += 1
+                        if depth > 1: cur.append(t.text)
+                    elif t.text == '>':
+                        depth -= 1
+                        if depth == 0:
+                            params.append(cur); break
+                        cur.append(t.text)
+                    elif t.text == ',' and depth == 1:
+                        params.append(cur); cur = []
+                    else:
+                        cur.append(t.text)
+                    j += 1
+                names = []
+                for p in params:
+                    if not p: continue
+                    nm = p[0] if p[0] != 'const' else p[1]
+                    names.append(nm)
+                return names
+            return []
+    return []
+
+
+def _derive_impls(text, kind, name, derives):
+    gens = _generics(text, kind, name)
+    use = ('<' + ', '.join(gens) + '>') if gens else ''
+    out = []
+    def decl(bound):
+        ps = [g if g.startswith("'") else ('%s: %s' % (g, bound) if bound else g) for g in gens]
+        return ('<' + ', '.join(ps) + '>') if ps else ''
+    for d in derives:
+        d = d.strip()
+        if d == 'Clone':
+            out.append('impl%s Clone for %s%s { #[verifier::external_body] fn clone(&self) -> (r: Self) ensures r == *self { unimplemented!() } }' % (decl('Clone'), name, use))
+        elif d == 'Copy':
+            out.append('impl%s Copy for %s%s {}' % (decl('Copy'), name, use))
+        elif d == 'PartialEq':
+            out.append('impl%s PartialEq for %s%s { #[verifier::external_body] fn eq(&self, o: &Self) -> bool { unimplemented!() } }' % (decl('PartialEq'), name, use))
+            out.append('impl%s vstd::std_specs::cmp::PartialEqSpecImpl for %s%s { open spec fn obeys_eq_spec() -> bool { true } open spec fn eq_spec(&self, o: &Self) -> bool { *self == *o } }' % (decl('PartialEq'), name, use))
+        elif d == 'Default':
+            out.append('impl%s Default for %s%s { #[verifier::external_body] fn default() -> Self { unimplemented!() } }' % (decl('Default'), name, use))
+        else:
+            raise Undecided('template error: unknown derive %s' % d)
+    return '\n'.join(out)
 
 
 def _apply_sub(sub, text, fname):
